@@ -56,6 +56,7 @@ type FuncContract struct {
 	Grows    map[string]bool // rely locations that only grow (boolean ghost sets): old members stay members
 	Invokes  string // name of a func-typed parameter this function calls exactly once (its contract is applied at the call)
 	Monitors []*Clause // monitor invariants: `monitor <mutex expr>: invariant e` (CallName = source of the mutex expression, Aux = its Expr)
+	NoPanicProp string // property the no-panic obligations are counted under (flags nopanic=Cxx; default C14)
 	ChanInvs []*Clause // channel invariants: `chan <local>: invariant <expr over elem>` (CallName = the channel variable)
 }
 
@@ -308,6 +309,14 @@ func (cs *Contracts) parseLine(cur **FuncContract, t, path string, ln int, pkgPa
 			return errf("flags outside function contract")
 		}
 		for _, f := range strings.Fields(rest) {
+			if i := strings.Index(f, "="); i > 0 {
+				// nopanic=C08: the no-panic obligations of this function serve that property (default C14)
+				if f[:i] == "nopanic" {
+					(*cur).NoPanicProp = f[i+1:]
+					(*cur).Props[f[i+1:]] = true
+				}
+				f = f[:i]
+			}
 			(*cur).Flags[f] = true
 		}
 	case "props":
